@@ -24,6 +24,7 @@ pub struct Args {
     pub tier: Tier,
     pub seed: u64,
     pub replay: Option<PathBuf>,
+    pub replay_many: Option<PathBuf>,
     pub workers: usize,
     pub journal: bool,
     pub dump: Option<(PathBuf, usize)>,
@@ -39,6 +40,7 @@ impl Args {
             },
             seed: std::env::var("VERIF_SEED").ok().and_then(|s| s.trim().parse::<i128>().ok()).map(|v| v as u64).unwrap_or(0),
             replay: None,
+            replay_many: None,
             workers: std::env::var("VERIF_WORKERS").ok().and_then(|s| s.parse().ok()).unwrap_or(16),
             journal: std::env::var("VERIF_JOURNAL").is_ok(),
             dump: None,
@@ -54,6 +56,7 @@ impl Args {
                     }
                 }
                 "--replay" => a.replay = it.next().map(PathBuf::from),
+                "--replay-many" => a.replay_many = it.next().map(PathBuf::from),
                 "--seed" => a.seed = it.next().and_then(|s| s.parse().ok()).unwrap_or(0),
                 "--workers" => a.workers = it.next().and_then(|s| s.parse().ok()).unwrap_or(16),
                 "--dump" => {
@@ -200,9 +203,19 @@ impl Acc {
         }
         self.sample_seen += 1;
         let n = self.sample_seen;
-        if self.dump.len() < self.dump_limit {
-            if let Ok(v) = serde_json::to_value(t) {
-                self.dump.push(v);
+        if self.dump_limit > 0 {
+            // deterministic reservoir sample of the cases seen by this worker
+            if self.dump.len() < self.dump_limit {
+                if let Ok(v) = serde_json::to_value(t) {
+                    self.dump.push(v);
+                }
+            } else {
+                let j = (n.wrapping_mul(0x9E37_79B9_7F4A_7C15) >> 17) % n;
+                if (j as usize) < self.dump_limit {
+                    if let Ok(v) = serde_json::to_value(t) {
+                        self.dump[j as usize] = v;
+                    }
+                }
             }
         }
         if n <= 2 || (n.is_power_of_two() && n >= 64) {
@@ -493,4 +506,34 @@ pub fn verdict(mut v: Vec<String>) -> Result<(), String> {
 /// registry-aware end of case
 pub fn end_case(allow_leaks: bool) -> Result<(), String> {
     verdict(registry::finish(allow_leaks))
+}
+
+
+/// `--replay-many FILE`: run a JSON list of cases sequentially on the main thread (used for Miri / sanitizer replays).
+/// Prints one line per failing case and exits 1 if any failed.
+pub fn maybe_replay_many<C: serde::de::DeserializeOwned + Serialize>(prop: &str, args: &Args, exec: impl Fn(&C, &mut Acc) -> Result<(), String>) {
+    let Some(path) = &args.replay_many else { return };
+    let text = std::fs::read_to_string(path).unwrap_or_else(|e| {
+        eprintln!("cannot read {}: {e}", path.display());
+        std::process::exit(2)
+    });
+    let cases: Vec<C> = serde_json::from_str(&text).unwrap_or_else(|e| {
+        eprintln!("not a list of cases: {e}");
+        std::process::exit(2)
+    });
+    let mut acc = Acc::new();
+    let mut bad = 0usize;
+    let verbose = std::env::var("VERIF_VERBOSE").is_ok();
+    for (i, c) in cases.iter().enumerate() {
+        if verbose {
+            println!("CASE {i}");
+        }
+        let r = catch(|| exec(c, &mut acc)).unwrap_or_else(|p| Err(format!("panic: {}", p.msg)));
+        if let Err(m) = r {
+            bad += 1;
+            println!("REPLAY-FAIL property={prop} index={i} case={} msg={m}", serde_json::to_string(c).unwrap_or_default());
+        }
+    }
+    println!("REPLAY-MANY property={prop} cases={} failed={bad}", cases.len());
+    std::process::exit(if bad == 0 { 0 } else { 1 });
 }
